@@ -43,7 +43,9 @@ A, B, K, DB, DK = "a1", "b2", "k3", "dB", "dK"
 
 DECOS = ["plain", "asynq", "pure", "proxy", "asynq_sync", "proxy_sync", "mad", "dedup", "aretry", "alru", "acpi"]
 WRAPPERS = ["mad", "dedup", "aretry", "alru", "acpi"]
-BINDINGS = ["func", "m_inst", "m_cls", "m_sub", "cm_cls", "cm_inst", "cm_sub", "sm_cls", "sm_inst"]
+# m_falsy: method reached through an instance whose truth value is False (empty container-like object):
+# binding must depend on `instance is None`, never on the instance's truthiness
+BINDINGS = ["func", "m_inst", "m_cls", "m_sub", "m_falsy", "cm_cls", "cm_inst", "cm_sub", "sm_cls", "sm_inst", "sm_falsy"]
 ARGPATS = {
     "pos": ((A, B), {}),
     "kw": ((), {"a": A, "b": B}),
@@ -54,9 +56,9 @@ ARGPATS = {
 BODIES = ["plain", "gen", "batch"]
 CONVS = ["sync", "asynq_value", "yield", "acall_asynq", "acall_sync", "acall_yield",
          "get_async_fn", "get_async_fn_wrap", "get_async_or_sync_fn"]
-FUNCTION_STYLE = {"aretry": ("func", "m_inst", "m_cls", "m_sub"), "alru": ("func", "m_inst", "m_cls", "m_sub"),
-                  "acpi": ("m_inst", "m_cls", "m_sub")}
-BOUND = ("m_inst", "m_cls", "m_sub", "cm_cls", "cm_inst", "cm_sub")
+FUNCTION_STYLE = {"aretry": ("func", "m_inst", "m_cls", "m_sub", "m_falsy"), "alru": ("func", "m_inst", "m_cls", "m_sub", "m_falsy"),
+                  "acpi": ("m_inst", "m_cls", "m_sub", "m_falsy")}
+BOUND = ("m_inst", "m_cls", "m_sub", "m_falsy", "cm_cls", "cm_inst", "cm_sub")
 
 SKIPPED = {
     "asynq(pure=True, sync_fn=...)": "assert at decoration time: 'sync_fn is not supported for pure async functions'",
@@ -337,10 +339,16 @@ def build(cell, log):
         return acc
     cls = type("C09Cls", (object,), {"m": obj})
     sub = type("C09Sub", (cls,), {})
+    falsy = type("C09Empty", (cls,), {"__len__": lambda self: 0})
     inst = cls()
     subinst = sub()
-    acc.keep = (cls, sub, inst, subinst)
-    if binding == "m_inst":
+    finst = falsy()
+    acc.keep = (cls, sub, inst, subinst, falsy, finst)
+    if binding == "m_falsy":
+        acc.f, acc.bound = finst.m, finst
+    elif binding == "sm_falsy":
+        acc.f = finst.m
+    elif binding == "m_inst":
         acc.f, acc.bound = inst.m, inst
     elif binding == "m_cls":
         acc.f, acc.bound, acc.pre = cls.m, inst, (inst,)
